@@ -262,6 +262,9 @@ def oracle_ref(cases, impl, model):
         if i.error:
             if i.error.startswith("panic"):
                 fails.append({"case_index": k, "what": "panic: %s" % i.error})
+            elif i.error.startswith("error:compile"):
+                fails.append({"case_index": k, "what": "a program of the documented grammar is rejected by the macros / does not compile: %s"
+                              % c.get("compile_error", ""), "surface": c.get("surface", "")[:1500]})
             continue
         if c.get("no_ref"):
             continue
@@ -363,6 +366,19 @@ def run_c13(tier, seed, replay=None):
         if "x" in P.sx(m) and "x" not in q:
             body = [["fresh", ["x"]] + body]
         cases.append(mk_case([MEM], q, body, maxans=20, budget=2000, what="match does not have the answers of its documented expansion"))
+    # alternatives that bind different names: a name an alternative does not bind denotes the enclosing variable
+    for _ in range(n // 5):
+        op = rnd.choice(["match", "matche", "matcha", "matchu"])
+        alts = rnd.choice([[["list", "x"], ["list", "x", "y"]], [["list", "x", "y"], ["list", "x"]], [["ilist", "x", "y"], "x"],
+                           ["y", ["list", "x", "_"]], [["list", "y"], ["list", "x"], ["list", "x", "y"]]])
+        val = rnd.choice([["list", 1], ["list", 1, 2], ["list", 3, 4], ["ilist", 1, 2], 5])
+        body_g = rnd.choice([[["eq", "x", 1]], [["eq", "x", 1], ["eq", "y", 5]], [["eq", "r", ["list", "x", "y"]]], [["neq", "y", 2], ["eq", "r", "x"]]])
+        arms = [["arm", ["pats"] + alts] + body_g]
+        if rnd.random() < 0.4:
+            arms.append(["arm", ["pats", "_"], ["eq", "r", 0]])
+        pre = rnd.choice([[], [["eq", "y", 2]], [["eq", "x", 7]]])
+        cases.append(mk_case([MEM], ["q", "r"], [["fresh", ["x", "y"], ["eq", "q", val]] + pre + [[op, "q"] + arms]], maxans=20, budget=2000,
+                             what="an alternative's own names must be new and the names it does not bind must denote the enclosing variables"))
     return run_compiled("C13", tier, seed, cases, oracle_ref,
         "random match / matche / matcha / matchu expressions: 1-3 arms, patterns of depth <= 2 (names, _, literals, [], proper and improper "
         "lists, compound patterns), alternatives p1 | p2 with equal variable sets, repeated names, pattern names shadowing outer names, "
